@@ -85,6 +85,17 @@ def extract(repo):
             put(key, val)
     except Exception as e:  # pragma: no cover
         missing.append(f"parser.py: {e}")
+    # ---- auto-07p export (C18): blocked PAR range and the slot that carries the time
+    try:
+        fb = _parse(repo, "pyrates/backend/fortran/fortran_backend.py")
+        fcls = _class(fb, "FortranBackend")
+        rng_ = _class_attr(fcls, "_AUTO_BLOCKED_PAR_RANGE") if fcls else None
+        put("autoBlocked", list(rng_) if isinstance(rng_, tuple) and len(rng_) == 2 else None)
+        src = open(os.path.join(repo, "pyrates/backend/fortran/fortran_backend.py")).read()
+        m = re.search(r'call \{func_name\}\(args\((\d+)\), y, dy', src)
+        put("autoTimeSlot", int(m.group(1)) if m else None)
+    except Exception as e:  # pragma: no cover
+        missing.append(f"fortran_backend.py: {e}")
     # ---- reserved variable names (C20 / C05): check_vname
     try:
         ot0 = _parse(repo, "pyrates/frontend/template/operator.py")
@@ -299,6 +310,10 @@ def render(T, missing):
             "true" if attr(k, "SUPPORTS_EDGE_DELAY_BUFFER", True) is True else "false"))
     L.append("def backends : List BackendT := [" + ",\n  ".join(items) + "]")
     L.append(f"def vectorizeForbiddenBackends : List String := {lean_list([str(x) for x in (T.get('vectorizeForbiddenBackends') or [])])}")
+    ab = T.get("autoBlocked") or [0, 0]
+    L.append(f"def autoBlockedLo : Nat := {int(ab[0])}")
+    L.append(f"def autoBlockedHi : Nat := {int(ab[1])}")
+    L.append(f"def autoTimeSlot : Nat := {int(T.get('autoTimeSlot') or 0)}")
     for key in ("disallowedNames", "disallowedNameParts"):
         L.append(f"def {key} : List String := {lean_list([str(x) for x in (T.get(key) or [])])}")
     for key in ("opCacheKeyIncludesDefinition", "irCachesResetAtApply"):
